@@ -446,6 +446,10 @@ class Interp(object):
             return [('val', Opaque('%s()#%d@%s' % (d, st.counter, line), kind), st)]
         if meth == 'encode':
             return [('val', Opaque('%s.encode(%s)' % (target, ', '.join(a.desc() for a in args)), 'bytes'), st)]
+        if kind is None and d.startswith('registry '):
+            owner = d[len('registry '):].split(':', 1)[0].rsplit('.', 1)[-1]
+            if self.prog.registered_never_none(meth, owner):
+                kind = 'obj'        # every class registered there returns a value from this method on every path
         return [('val', Opaque('%s()' % d, kind), st)]
 
     def instantiate(self, cinfo, args, kwargs, st, line=None):
